@@ -22,7 +22,7 @@ CHECKS["C16"] = dict(
         "diplomat_is_str; pointer provenance is not modelled.",
    design="§5 C16")
 CHECKS["C03"] = dict(
-   text="Proof (partial): Own/Model.v models the runtime's owners (DiplomatResult/Option, owned slices, callbacks) as token moves and drops; "
+   text="Proof (partial) + end-to-end lifecycles (opaques, owned slices, callbacks with destructors through the generated C header under ASan): Own/Model.v models the runtime's owners (DiplomatResult/Option, owned slices, callbacks) as token moves and drops; "
         "C03_exactly_once / C03_never_twice are proved for every well-typed history (invariant: the multiset of dropped + still-owned tokens is "
         "exactly the set of tokens created), C03_unrepaired_into_refuted records the double drop that was repaired in /repo. Tied to the code "
         "by running the same histories on the real types with drop-logging payloads and proving per-operation agreement in Coq.",
@@ -83,6 +83,15 @@ CHECKS["C10"] = dict(
         "the model in Coq; runtime conversions themselves are covered by C03.",
    note="Trusted: as C01; the C compiler's union layout (SysV ABI).",
    design="§5 C10")
+CHECKS["C02"] = dict(
+   text="Proof (partial) + end-to-end: Cpp/Model.v gives the conversion semantics of the generated C++ wrappers over an abstract value domain; "
+        "C02_to_cpp_to_c (values of any nesting arrive unchanged), C02_ret_arm_preserved, C02_none_ignores_payload, "
+        "C02_invalid_utf8_never_reaches_rust (via C16's UTF-8 theorem). Tied to the code by generated bridges built with the real macro and driven "
+        "through the generated C++ class API by a compiled driver (c++17; c++20 too in the thorough tier): Rust-side logs and returned values must "
+        "equal what was passed/produced, invalid UTF-8 must be rejected on the C++ side; each transported value is also checked against the model in Coq.",
+   note="Partial: libstdc++, template instantiation and std::function lifetimes are executed, not modelled. Trusted: Coq kernel+vm_compute, hand "
+        "transcription in Cpp/Model.v, canonical-text parser, g++ and rustc.",
+   design="§5 C02")
 NOT_YET = {
 }
 ALL = [f"C{i:02d}" for i in range(1, 18)]
